@@ -479,6 +479,41 @@ md_match_p(struct md_s md, bituint31_t m, bitint31_t d)
 }
 
 
+static bool
+dow_limit_p(
+	const bitint447_t *dow, uint8_t wd_mask,
+	unsigned int y, unsigned int m, unsigned int d, echs_wday_t w, bool mp)
+{
+/* whether M/D of Y, a W, passes BYDAY as a limit, RFC 5545 3.3.10:
+ * a plain weekday admits every such day, a numbered one the N-th such
+ * day of the month (MP) or of the year */
+	int tmp;
+
+	if ((wd_mask >> w) & 0b1U) {
+		return true;
+	} else if (!(wd_mask & 0b1U)) {
+		return false;
+	}
+	for (bitint_iter_t dowi = 0UL;
+	     (tmp = bi447_next(&dowi, dow), dowi);) {
+		const struct cd_s cd = unpack_cd(tmp);
+		struct md_s md;
+
+		if (cd.cnt == 0 || cd.dow != w) {
+			continue;
+		} else if (mp) {
+			if (ymcw_get_dom(y, m, cd.cnt, cd.dow) == d) {
+				return true;
+			}
+		} else if ((md = yd_to_md(
+				    y, ycw_get_yday(y, cd.cnt, cd.dow))).m == m &&
+			   md.d == d) {
+			return true;
+		}
+	}
+	return false;
+}
+
 /* recurrence helpers */
 static void
 fill_yly_ywd(
@@ -569,7 +604,7 @@ fill_yly_ycw(bitint383_t *restrict cand, unsigned int y, const bitint447_t *dow)
 static void
 fill_yly_yd(
 	bitint383_t *restrict cand, unsigned int y,
-	const bitint383_t *doy, uint8_t wd_mask)
+	const bitint383_t *doy, const bitint447_t *dow, uint8_t wd_mask, bool mp)
 {
 	int yd;
 
@@ -582,15 +617,16 @@ fill_yly_yd(
 			/* count from the end of the year */
 			yd += 366 + !(y % 4U);
 		}
-		if (wd_mask >> 1U &&
-		    !((wd_mask >> yd_get_wday(y, yd)) & 0b1U)) {
-			/* weekday is masked out */
-			continue;
-		} else if (UNLIKELY(yd > 365 + !(y % 4U))) {
+		if (UNLIKELY(yd > 365 + !(y % 4U))) {
 			/* no such day in Y */
 			continue;
 		} else if (!(md = yd_to_md(y, yd)).m) {
 			/* something's wrong again */
+			continue;
+		} else if (wd_mask &&
+			   !dow_limit_p(dow, wd_mask, y, md.m, md.d,
+					yd_get_wday(y, yd), mp)) {
+			/* weekday is masked out */
 			continue;
 		}
 		/* otherwise it's looking good */
@@ -704,7 +740,7 @@ fill_mly_ymd(
 	bitint383_t *restrict cand, echs_scale_t s,
 	const unsigned int y, const unsigned int mo,
 	const int d[static 2U * 31U], size_t nd,
-	uint8_t wd_mask)
+	const bitint447_t *dow, uint8_t wd_mask)
 {
 	for (size_t j = 0UL; j < nd; j++) {
 		const unsigned int ndim = echs_scale_ndim(s, y, mo);
@@ -718,8 +754,14 @@ fill_mly_ymd(
 			continue;
 		}
 		/* check wd_mask */
-		if (wd_mask >> 1U &&
-		    !((wd_mask >> echs_scale_wday(s, y, mo, dd)) & 0b1U)) {
+		if (s != SCALE_GREGORIAN) {
+			if (wd_mask >> 1U &&
+			    !((wd_mask >> echs_scale_wday(s, y, mo, dd)) & 0b1U)) {
+				continue;
+			}
+		} else if (wd_mask &&
+			   !dow_limit_p(dow, wd_mask, y, mo, dd,
+					echs_scale_wday(s, y, mo, dd), true)) {
 			continue;
 		}
 
@@ -734,10 +776,10 @@ fill_yly_ymd(
 	bitint383_t *restrict cand, echs_scale_t s, unsigned int y,
 	const unsigned int m[static 12U], size_t nm,
 	const int d[static 2U * 31U], size_t nd,
-	uint8_t wd_mask)
+	const bitint447_t *dow, uint8_t wd_mask)
 {
 	for (size_t i = 0UL; i < nm; i++) {
-		fill_mly_ymd(cand, s, y, m[i], d, nd, wd_mask);
+		fill_mly_ymd(cand, s, y, m[i], d, nd, dow, wd_mask);
 	}
 	return;
 }
@@ -746,7 +788,7 @@ static void
 fill_yly_ymd_all_m(
 	bitint383_t *restrict cand, echs_scale_t s,
 	unsigned int y, const int d[static 2U * 31U], size_t nd,
-	uint8_t wd_mask)
+	const bitint447_t *dow, uint8_t wd_mask)
 {
 	for (unsigned int m = 1U; m <= 12U; m++) {
 		for (size_t j = 0UL; j < nd; j++) {
@@ -762,8 +804,12 @@ fill_yly_ymd_all_m(
 			}
 			/* check wd_mask */
 			const echs_wday_t wd = echs_scale_wday(s, y, m, dd);
-			if (wd_mask &&
-			    !((wd_mask >> wd) & 0b1U)) {
+			if (s != SCALE_GREGORIAN) {
+				if (wd_mask && !((wd_mask >> wd) & 0b1U)) {
+					continue;
+				}
+			} else if (wd_mask &&
+				   !dow_limit_p(dow, wd_mask, y, m, dd, wd, false)) {
 				continue;
 			}
 
@@ -1176,7 +1222,7 @@ rrul_fill_yly(echs_instant_t *restrict tgt, size_t nti, rrulsp_t rr)
 
 		/* extend by yd */
 		if (srcsca == SCALE_GREGORIAN) {
-			fill_yly_yd(cand, y, &rr->doy, wd_mask);
+			fill_yly_yd(cand, y, &rr->doy, &rr->dow, wd_mask, nm > 0U);
 		}
 
 		/* extend by ymd */
@@ -1191,11 +1237,13 @@ rrul_fill_yly(echs_instant_t *restrict tgt, size_t nti, rrulsp_t rr)
 			/* don't fill up any ymds */
 			;
 		} else if (!nm) {
-			fill_yly_ymd_all_m(cand, srcsca, y, d, nd, wd_mask);
+			fill_yly_ymd_all_m(
+				cand, srcsca, y, d, nd, &rr->dow, wd_mask);
 		} else if (!nd) {
 			fill_yly_ymd_all_d(cand, srcsca, y, m, nm, wd_mask);
 		} else {
-			fill_yly_ymd(cand, srcsca, y, m, nm, d, nd, wd_mask);
+			fill_yly_ymd(
+				cand, srcsca, y, m, nm, d, nd, &rr->dow, wd_mask);
 		}
 
 		/* limit by setpos */
@@ -1417,7 +1465,7 @@ rrul_fill_mly(echs_instant_t *restrict tgt, size_t nti, rrulsp_t rr)
 
 		/* extend by ymd */
 		if (nd) {
-			fill_mly_ymd(cand, srcsca, y, m, d, nd, wd_mask);
+			fill_mly_ymd(cand, srcsca, y, m, d, nd, &rr->dow, wd_mask);
 		}
 
 		/* limit by setpos */
